@@ -2,7 +2,7 @@
 A line-level pause (sys.settrace) holds thread A between its write of a process-global and its later read; thread B runs
 in the gap; A then observes B's value."""
 import sys, os, threading
-sys.path.insert(0,"/root/vtlstub"); import vtlstub; vtlstub.install(os.environ.get("VTL_SRC","/repo/src"))
+sys.path.insert(0,"/verif/triage"); import vtlstub; vtlstub.install(os.environ.get("VTL_SRC","/repo/src"))
 from vtlengine.DataTypes import Integer, Number
 from vtlengine.Model import Scalar
 from vtlengine.Operators.Numeric import Round, Parameterized
